@@ -655,6 +655,14 @@ pub fn rekey(
     msk: &mut MasterSecretKey,
     rights: HashSet<Right>,
 ) -> Result<(), Error> {
+    // Check all rights belong to the MSK before generating any new secret, so
+    // that the MSK is left untouched upon error.
+    if rights.iter().any(|r| !msk.secrets.contains_key(r)) {
+        return Err(Error::OperationNotPermitted(
+            "cannot re-key a right not belonging to the MSK".to_string(),
+        ));
+    }
+
     for r in rights {
         if msk.secrets.contains_key(&r) {
             // The new secret inherits the activation status of the current one:
